@@ -235,6 +235,8 @@ def gen_function_vcs(lib, key):
         info['status'] = 'ok'
         info['n_loops'] = fv.n_loops
         info['reachable_returns'] = list(getattr(fv, 'reachable_returns', (None, None)))
+        info['callees'] = sorted(fv.used_callees - {key})
+        info['lemmas'] = sorted(fv.used_lemmas)
     except engine.OutOfFragment as e:
         info['status'] = 'out-of-fragment'
         info['error'] = str(e)
